@@ -447,7 +447,10 @@ fn random_action(f: &Family, backend: Backend, en: &Enabled, rng: &mut Rng) -> O
         if en.resumable.is_empty() { 0 } else { f.w_resume },
         if en.cancellable.is_empty() { 0 } else { f.w_cancel },
         if en.in_callback.is_empty() { 0 } else { f.w_cbret },
-        if lru { f.w_tick } else { 0 },
+        // no tick between the two halves of a critical section: the time stamp `on_unlock` writes for the
+        // next guard of a multi-guard drop belongs to the second half, the model makes the whole step at the
+        // first (DESIGN 4.7), and the order of a tick relative to either half is the client's business anyway
+        if lru && !en.cs_held { f.w_tick } else { 0 },
         if lru && can_start { f.w_expire } else { 0 },
         if !pool && can_start { f.w_stream } else { 0 },
         if n_step > 0 {
